@@ -2,7 +2,7 @@
    source expression (eval), for every expression without conditional expressions, at every modelled position. *)
 From Coq Require Import List Bool Arith Lia.
 Import ListNotations.
-Require Import PonyV.Model.C03Bexp PonyV.Model.C03Decomp PonyV.Proofs.C03Checker PonyV.Proofs.C03Roundtrip.
+Require Import PonyV.Model.C03Bexp PonyV.Model.C03Decomp PonyV.Model.C03Family PonyV.Proofs.C03Checker PonyV.Proofs.C03Roundtrip.
 
 (* ------------------------------------------------------------------ length of the generated code *)
 Lemma elen_list_cons2' : forall cnd x y s,
@@ -180,10 +180,19 @@ Qed.
 Lemma truthy_of_bool : forall b, truthy (of_bool b) = b.
 Proof. intros []; reflexivity. Qed.
 
+Lemma simple_go : forall m,
+  (fix go (l : list bexp) : bool := match l with [] => true | x :: r => simple x && go r end) m = forallb simple m.
+Proof. induction m as [|x r IH]; [reflexivity|]. cbn [forallb]. rewrite <- IH. reflexivity. Qed.
+
+Lemma simple_And : forall l, simple (And l) = true -> l <> [] /\ forallb simple l = true.
+Proof. intros [|x r] H; [discriminate H|]. split; [discriminate|]. rewrite <- simple_go. exact H. Qed.
+Lemma simple_Or : forall l, simple (Or l) = true -> l <> [] /\ forallb simple l = true.
+Proof. intros [|x r] H; [discriminate H|]. split; [discriminate|]. rewrite <- simple_go. exact H. Qed.
+
 (* ------------------------------------------------------------------ the statement proved by induction on the expression *)
 Definition sound_at (e : bexp) : Prop :=
   forall cnd code pre suf next c rho stk fuel,
-  has_ifexp e = false ->
+  simple e = true ->
   code = pre ++ comp cnd e (pos_of (length pre)) next c ++ suf ->
   length code + 3 <= fuel + pos_of (length pre) ->
   (forall t, next = TAt t -> pos_of (length pre) + elen cnd e <= t) ->
@@ -192,7 +201,7 @@ Definition sound_at (e : bexp) : Prop :=
 
 (* value-context use of an induction hypothesis, with the code re-associated by the caller *)
 Lemma use_val : forall e code pre suf next c rho stk fuel,
-  sound_at e -> has_ifexp e = false ->
+  sound_at e -> simple e = true ->
   code = pre ++ comp false e (pos_of (length pre)) next c ++ suf ->
   length code + 3 <= fuel + pos_of (length pre) ->
   post_val code rho (eval rho e) fuel (pos_of (length pre)) stk (pos_of (length pre) + elen false e).
@@ -230,7 +239,7 @@ Proof. intros. rewrite app_length. unfold pos_of. lia. Qed.
 
 Lemma and_cond_list : forall l, Forall sound_at l -> l <> [] ->
   forall code pre suf next next2 c rho stk fuel pend,
-  existsb has_ifexp l = false ->
+  forallb simple l = true ->
   code = pre ++ comp_and true next next2 c l (pos_of (length pre)) ++ suf ->
   length code + 3 <= fuel + pos_of (length pre) ->
   pend = pos_of (length pre) + elen_list true l ->
@@ -240,7 +249,7 @@ Lemma and_cond_list : forall l, Forall sound_at l -> l <> [] ->
 Proof.
   induction l as [|x r IHl]; intros HF Hne code pre suf next next2 c rho stk fuel pend Hif Hcode Hfuel Hpend Hn2 Hfw; [congruence|].
   inversion HF as [|? ? Hx Hr]; subst x0 l.
-  cbn [existsb] in Hif. apply orb_false_iff in Hif. destruct Hif as [Hifx Hifr].
+  cbn [forallb] in Hif. apply andb_true_iff in Hif. destruct Hif as [Hifx Hifr].
   destruct r as [|y s].
   - cbn [comp_and elen_list eval_and] in *. subst pend.
     apply (Hx true code pre suf next c rho stk fuel Hifx Hcode Hfuel). intros t Ht. apply Hfw. assumption.
@@ -263,14 +272,14 @@ Proof.
       * assumption.
       * assumption.
     + (* x is false: the whole `and` is false *)
-      unfold post_cond. subst next2. destruct c; cbn [Bool.eqb].
+      unfold post_cond. rewrite Etx. subst next2. destruct c; cbn [Bool.eqb] in *.
       * destruct Hx' as [f1 Hs1]. exists f1. exact Hs1.
       * exact Hx'.
 Qed.
 
 Lemma or_cond_list : forall l, Forall sound_at l -> l <> [] ->
   forall code pre suf next next2 c rho stk fuel pend,
-  existsb has_ifexp l = false ->
+  forallb simple l = true ->
   code = pre ++ comp_or true next next2 c l (pos_of (length pre)) ++ suf ->
   length code + 3 <= fuel + pos_of (length pre) ->
   pend = pos_of (length pre) + elen_list true l ->
@@ -280,7 +289,7 @@ Lemma or_cond_list : forall l, Forall sound_at l -> l <> [] ->
 Proof.
   induction l as [|x r IHl]; intros HF Hne code pre suf next next2 c rho stk fuel pend Hif Hcode Hfuel Hpend Hn2 Hfw; [congruence|].
   inversion HF as [|? ? Hx Hr]; subst x0 l.
-  cbn [existsb] in Hif. apply orb_false_iff in Hif. destruct Hif as [Hifx Hifr].
+  cbn [forallb] in Hif. apply andb_true_iff in Hif. destruct Hif as [Hifx Hifr].
   destruct r as [|y s].
   - cbn [comp_or elen_list eval_or] in *. subst pend.
     apply (Hx true code pre suf next c rho stk fuel Hifx Hcode Hfuel). intros t Ht. apply Hfw. assumption.
@@ -292,7 +301,7 @@ Proof.
     specialize (Hx' Hfw2). fold p in Hx'. cbn [eval_or]. unfold post_cond in Hx'.
     destruct (truthy (eval rho x)) eqn:Etx; cbn [Bool.eqb] in Hx'.
     + (* x is true: the whole `or` is true *)
-      unfold post_cond. rewrite Etx. subst next2. destruct c; cbn [Bool.eqb].
+      unfold post_cond. rewrite Etx. subst next2. destruct c; cbn [Bool.eqb] in *.
       * exact Hx'.
       * destruct Hx' as [f1 Hs1]. exists f1. exact Hs1.
     + (* x is false: go on *)
@@ -306,4 +315,427 @@ Proof.
       * rewrite Hp2. lia.
       * assumption.
       * assumption.
+Qed.
+
+(* value context: x ; COPY ; POP_JUMP_IF_FALSE end ; POP_TOP ; ... *)
+Lemma nth_error_3 : forall (a b c : instr) k ins, nth_error [a; b; c] k = Some ins -> True.
+Proof. trivial. Qed.
+
+Lemma and_val_list : forall l, Forall sound_at l -> l <> [] ->
+  forall code pre suf next c rho stk fuel pend,
+  forallb simple l = true ->
+  code = pre ++ comp_and false next (TAt pend) c l (pos_of (length pre)) ++ suf ->
+  length code + 3 <= fuel + pos_of (length pre) ->
+  pend = pos_of (length pre) + elen_list false l ->
+  post_val code rho (eval_and rho l) fuel (pos_of (length pre)) stk pend.
+Proof.
+  induction l as [|x r IHl]; intros HF Hne code pre suf next c rho stk fuel pend Hif Hcode Hfuel Hpend; [congruence|].
+  inversion HF as [|? ? Hx Hr]; subst x0 l.
+  cbn [forallb] in Hif. apply andb_true_iff in Hif. destruct Hif as [Hifx Hifr].
+  destruct r as [|y s].
+  - cbn [comp_and elen_list eval_and] in *. subst pend. apply (use_val x code pre suf next c rho stk fuel Hx Hifx Hcode Hfuel).
+  - rewrite comp_and_cons2f, <- !app_assoc in Hcode. rewrite elen_list_cons2' in Hpend.
+    set (p := pos_of (length pre)) in *.
+    destruct (use_val x code pre _ next c rho stk fuel Hx Hifx Hcode Hfuel) as [f1 Hs1]. fold p in Hs1.
+    set (v := eval rho x) in *. set (p1 := p + elen false x) in *.
+    (* the three plumbing instructions *)
+    assert (Hc3 : code = (pre ++ comp false x p next c) ++ [ICopy; jump_to false (TAt pend); IPopTop] ++ (comp_and false next (TAt pend) c (y :: s) (p + elen false x + 3) ++ suf)).
+    { rewrite Hcode. rewrite <- !app_assoc. reflexivity. }
+    assert (Hp1 : pos_of (length (pre ++ comp false x p next c)) = p1) by (rewrite pos_of_app, length_comp; reflexivity).
+    assert (Hat0 : instr_at code (p1 + 0) ICopy) by (rewrite Hc3, <- Hp1; apply instr_at_mid; reflexivity).
+    assert (Hat1 : instr_at code (p1 + 1) (IJump false pend)) by (rewrite Hc3, <- Hp1; apply instr_at_mid; reflexivity).
+    assert (Hat2 : instr_at code (p1 + 2) IPopTop) by (rewrite Hc3, <- Hp1; apply instr_at_mid; reflexivity).
+    rewrite Nat.add_0_r in Hat0.
+    assert (Hf1 : length code + 3 <= f1 + p1) by (destruct Hs1 as [H _]; exact H).
+    destruct (fuel_pos _ _ _ _ Hat0 Hf1) as [f2 ->].
+    assert (Hf2 : length code + 3 <= f2 + (p1 + 1)) by lia.
+    destruct (fuel_pos _ _ _ _ Hat1 Hf2) as [f3 ->].
+    cbn [eval_and]. fold v.
+    destruct (truthy v) eqn:Etv.
+    + (* v is true: POP_TOP and go on with the rest *)
+      assert (Hf3 : length code + 3 <= f3 + (p1 + 2)) by lia.
+      destruct (fuel_pos _ _ _ _ Hat2 Hf3) as [f4 ->].
+      assert (Hsteps : steps code rho (fuel, p, stk) (f4, p1 + 3, stk)).
+      { eapply steps_trans; [exact Hs1|]. split; [lia|].
+        rewrite (exec_unfold _ rho code p1 (v :: stk) _ Hat0).
+        replace (S p1) with (p1 + 1) by lia. rewrite (exec_unfold _ rho code (p1 + 1) (v :: v :: stk) _ Hat1). rewrite Etv. cbn [Bool.eqb].
+        replace (S (p1 + 1)) with (p1 + 2) by lia. rewrite (exec_unfold _ rho code (p1 + 2) (v :: stk) _ Hat2).
+        replace (S (p1 + 2)) with (p1 + 3) by lia. reflexivity. }
+      eapply post_val_pre; [exact Hsteps|].
+      assert (Hcode2 : code = (pre ++ comp false x p next c ++ [ICopy; jump_to false (TAt pend); IPopTop]) ++ comp_and false next (TAt pend) c (y :: s) (p + elen false x + 3) ++ suf).
+      { rewrite Hcode. rewrite <- !app_assoc. reflexivity. }
+      assert (Hp2 : pos_of (length (pre ++ comp false x p next c ++ [ICopy; jump_to false (TAt pend); IPopTop])) = p1 + 3).
+      { rewrite pos_of_app, app_length, length_comp. cbn [length]. unfold p1. lia. }
+      replace (p + elen false x + 3) with (p1 + 3) in Hcode2 by (unfold p1; lia).
+      rewrite <- Hp2 in Hcode2 |- *.
+      apply (IHl Hr ltac:(discriminate) code _ suf next c rho stk f4 pend Hifr Hcode2).
+      * rewrite Hp2. lia.
+      * rewrite Hp2. unfold p1. lia.
+    + (* v is false: it is the value of the `and`; jump to the end *)
+      exists f3. eapply steps_trans; [exact Hs1|]. split.
+      * assert (p1 + 1 < pend) by (unfold p1; rewrite Hpend; lia). lia.
+      * rewrite (exec_unfold _ rho code p1 (v :: stk) _ Hat0).
+        replace (S p1) with (p1 + 1) by lia. rewrite (exec_unfold _ rho code (p1 + 1) (v :: v :: stk) _ Hat1). rewrite Etv. reflexivity.
+Qed.
+
+Lemma or_val_list : forall l, Forall sound_at l -> l <> [] ->
+  forall code pre suf next c rho stk fuel pend,
+  forallb simple l = true ->
+  code = pre ++ comp_or false next (TAt pend) c l (pos_of (length pre)) ++ suf ->
+  length code + 3 <= fuel + pos_of (length pre) ->
+  pend = pos_of (length pre) + elen_list false l ->
+  post_val code rho (eval_or rho l) fuel (pos_of (length pre)) stk pend.
+Proof.
+  induction l as [|x r IHl]; intros HF Hne code pre suf next c rho stk fuel pend Hif Hcode Hfuel Hpend; [congruence|].
+  inversion HF as [|? ? Hx Hr]; subst x0 l.
+  cbn [forallb] in Hif. apply andb_true_iff in Hif. destruct Hif as [Hifx Hifr].
+  destruct r as [|y s].
+  - cbn [comp_or elen_list eval_or] in *. subst pend. apply (use_val x code pre suf next c rho stk fuel Hx Hifx Hcode Hfuel).
+  - rewrite comp_or_cons2f, <- !app_assoc in Hcode. rewrite elen_list_cons2' in Hpend.
+    set (p := pos_of (length pre)) in *.
+    destruct (use_val x code pre _ next c rho stk fuel Hx Hifx Hcode Hfuel) as [f1 Hs1]. fold p in Hs1.
+    set (v := eval rho x) in *. set (p1 := p + elen false x) in *.
+    assert (Hc3 : code = (pre ++ comp false x p next c) ++ [ICopy; jump_to true (TAt pend); IPopTop] ++ (comp_or false next (TAt pend) c (y :: s) (p + elen false x + 3) ++ suf)).
+    { rewrite Hcode. rewrite <- !app_assoc. reflexivity. }
+    assert (Hp1 : pos_of (length (pre ++ comp false x p next c)) = p1) by (rewrite pos_of_app, length_comp; reflexivity).
+    assert (Hat0 : instr_at code (p1 + 0) ICopy) by (rewrite Hc3, <- Hp1; apply instr_at_mid; reflexivity).
+    assert (Hat1 : instr_at code (p1 + 1) (IJump true pend)) by (rewrite Hc3, <- Hp1; apply instr_at_mid; reflexivity).
+    assert (Hat2 : instr_at code (p1 + 2) IPopTop) by (rewrite Hc3, <- Hp1; apply instr_at_mid; reflexivity).
+    rewrite Nat.add_0_r in Hat0.
+    assert (Hf1 : length code + 3 <= f1 + p1) by (destruct Hs1 as [H _]; exact H).
+    destruct (fuel_pos _ _ _ _ Hat0 Hf1) as [f2 ->].
+    assert (Hf2 : length code + 3 <= f2 + (p1 + 1)) by lia.
+    destruct (fuel_pos _ _ _ _ Hat1 Hf2) as [f3 ->].
+    cbn [eval_or]. fold v.
+    destruct (truthy v) eqn:Etv.
+    + (* v is true: it is the value of the `or`; jump to the end *)
+      exists f3. eapply steps_trans; [exact Hs1|]. split.
+      * assert (p1 + 1 < pend) by (unfold p1; rewrite Hpend; lia). lia.
+      * rewrite (exec_unfold _ rho code p1 (v :: stk) _ Hat0).
+        replace (S p1) with (p1 + 1) by lia. rewrite (exec_unfold _ rho code (p1 + 1) (v :: v :: stk) _ Hat1). rewrite Etv. reflexivity.
+    + assert (Hf3 : length code + 3 <= f3 + (p1 + 2)) by lia.
+      destruct (fuel_pos _ _ _ _ Hat2 Hf3) as [f4 ->].
+      assert (Hsteps : steps code rho (fuel, p, stk) (f4, p1 + 3, stk)).
+      { eapply steps_trans; [exact Hs1|]. split; [lia|].
+        rewrite (exec_unfold _ rho code p1 (v :: stk) _ Hat0).
+        replace (S p1) with (p1 + 1) by lia. rewrite (exec_unfold _ rho code (p1 + 1) (v :: v :: stk) _ Hat1). rewrite Etv. cbn [Bool.eqb].
+        replace (S (p1 + 1)) with (p1 + 2) by lia. rewrite (exec_unfold _ rho code (p1 + 2) (v :: stk) _ Hat2).
+        replace (S (p1 + 2)) with (p1 + 3) by lia. reflexivity. }
+      eapply post_val_pre; [exact Hsteps|].
+      assert (Hcode2 : code = (pre ++ comp false x p next c ++ [ICopy; jump_to true (TAt pend); IPopTop]) ++ comp_or false next (TAt pend) c (y :: s) (p + elen false x + 3) ++ suf).
+      { rewrite Hcode. rewrite <- !app_assoc. reflexivity. }
+      assert (Hp2 : pos_of (length (pre ++ comp false x p next c ++ [ICopy; jump_to true (TAt pend); IPopTop])) = p1 + 3).
+      { rewrite pos_of_app, app_length, length_comp. cbn [length]. unfold p1. lia. }
+      replace (p + elen false x + 3) with (p1 + 3) in Hcode2 by (unfold p1; lia).
+      rewrite <- Hp2 in Hcode2 |- *.
+      apply (IHl Hr ltac:(discriminate) code _ suf next c rho stk f4 pend Hifr Hcode2).
+      * rewrite Hp2. lia.
+      * rewrite Hp2. unfold p1. lia.
+Qed.
+
+(* ------------------------------------------------------------------ the induction *)
+Definition sound_at' (e : bexp) : Prop := sound_at e /\ forall neg e2, e = IsNone neg e2 -> sound_at e2.
+
+Lemma eqb_negb_shift : forall a c, Bool.eqb (negb a) c = Bool.eqb a (negb c).
+Proof. intros [] []; reflexivity. Qed.
+Lemma eqb_xorb_shift : forall neg b c, Bool.eqb (xorb neg b) c = Bool.eqb b (xorb c neg).
+Proof. intros [] [] []; reflexivity. Qed.
+
+(* one instruction appended to a value computation *)
+Lemma val_then_op : forall e op code pre suf next c rho stk fuel stk',
+  sound_at e -> simple e = true ->
+  code = pre ++ comp false e (pos_of (length pre)) next c ++ [op] ++ suf ->
+  length code + 3 <= fuel + pos_of (length pre) ->
+  (forall f0 pc, instr_at code pc op -> exec (S f0) rho code pc (eval rho e :: stk) = exec f0 rho code (S pc) stk') ->
+  exists f', steps code rho (fuel, pos_of (length pre), stk) (f', pos_of (length pre) + S (elen false e), stk').
+Proof.
+  intros e op code pre suf next c rho stk fuel stk' He Hs Hcode Hfuel Hop. set (p := pos_of (length pre)) in *.
+  destruct (use_val e code pre _ next c rho stk fuel He Hs Hcode Hfuel) as [f1 Hs1]. fold p in Hs1.
+  set (p1 := p + elen false e) in *.
+  assert (Hc2 : code = (pre ++ comp false e p next c) ++ [op] ++ suf) by (rewrite Hcode, <- !app_assoc; reflexivity).
+  assert (Hp1 : pos_of (length (pre ++ comp false e p next c)) = p1) by (rewrite pos_of_app, length_comp; reflexivity).
+  assert (Hat : instr_at code (p1 + 0) op) by (rewrite Hc2, <- Hp1; apply instr_at_mid; reflexivity).
+  rewrite Nat.add_0_r in Hat.
+  assert (Hf1 : length code + 3 <= f1 + p1) by (destruct Hs1 as [H _]; exact H).
+  destruct (fuel_pos _ _ _ _ Hat Hf1) as [f2 ->].
+  exists f2. eapply steps_trans; [exact Hs1|]. split; [lia|].
+  rewrite (Hop f2 p1 Hat). replace (p + S (elen false e)) with (S p1) by (unfold p1; lia). reflexivity.
+Qed.
+
+Lemma sound_all : forall e, sound_at' e.
+Proof.
+  induction e as [n|v|e IH|l IH|l IH|t a b IHt IHa IHb|ne a b IHa IHb|neg e IH] using bexp_ind2.
+  - (* Atom *)
+    split; [|intros; discriminate].
+    intros cnd code pre suf next c rho stk fuel _ Hcode Hfuel Hfw. set (p := pos_of (length pre)) in *.
+    destruct cnd; cbn [comp elen eval] in *.
+    + assert (Hat0 : instr_at code (p + 0) (ILoad n)) by (rewrite Hcode; apply instr_at_mid; reflexivity).
+      assert (Hat1 : instr_at code (p + 1) (jump_to c next)) by (rewrite Hcode; apply instr_at_mid; reflexivity).
+      rewrite Nat.add_0_r in Hat0. destruct (fuel_pos _ _ _ _ Hat0 Hfuel) as [f0 ->].
+      eapply post_cond_pre.
+      * split; [|apply (exec_unfold f0 rho code p stk _ Hat0)]. lia.
+      * replace (S p) with (p + 1) by lia. replace (p + 2) with (S (p + 1)) by lia.
+        apply step_jump; [assumption | lia |]. intros t Ht. apply Hfw in Ht. lia.
+    + assert (Hat0 : instr_at code (p + 0) (ILoad n)) by (rewrite Hcode; apply instr_at_mid; reflexivity).
+      rewrite Nat.add_0_r in Hat0. destruct (fuel_pos _ _ _ _ Hat0 Hfuel) as [f0 ->].
+      exists f0. split; [lia|]. rewrite (exec_unfold f0 rho code p stk _ Hat0). replace (p + 1) with (S p) by lia. reflexivity.
+  - (* Const *)
+    split; [|intros; discriminate].
+    intros cnd code pre suf next c rho stk fuel _ Hcode Hfuel Hfw. set (p := pos_of (length pre)) in *.
+    destruct cnd; cbn [comp elen eval] in *.
+    + assert (Hat0 : instr_at code (p + 0) (IConst v)) by (rewrite Hcode; apply instr_at_mid; reflexivity).
+      assert (Hat1 : instr_at code (p + 1) (jump_to c next)) by (rewrite Hcode; apply instr_at_mid; reflexivity).
+      rewrite Nat.add_0_r in Hat0. destruct (fuel_pos _ _ _ _ Hat0 Hfuel) as [f0 ->].
+      eapply post_cond_pre.
+      * split; [|apply (exec_unfold f0 rho code p stk _ Hat0)]. lia.
+      * replace (S p) with (p + 1) by lia. replace (p + 2) with (S (p + 1)) by lia.
+        apply step_jump; [assumption | lia |]. intros t Ht. apply Hfw in Ht. lia.
+    + assert (Hat0 : instr_at code (p + 0) (IConst v)) by (rewrite Hcode; apply instr_at_mid; reflexivity).
+      rewrite Nat.add_0_r in Hat0. destruct (fuel_pos _ _ _ _ Hat0 Hfuel) as [f0 ->].
+      exists f0. split; [lia|]. rewrite (exec_unfold f0 rho code p stk _ Hat0). replace (p + 1) with (S p) by lia. reflexivity.
+  - (* Not *)
+    destruct IH as [IHe IHis]. split; [|intros; discriminate].
+    intros cnd code pre suf next c rho stk fuel Hif Hcode Hfuel Hfw. set (p := pos_of (length pre)) in *.
+    cbn [simple] in Hif. destruct cnd.
+    + (* condition: the jump sense is inverted *)
+      cbn [comp elen eval] in *. rewrite truthy_of_bool.
+      assert (H := IHe true code pre suf next (negb c) rho stk fuel Hif Hcode Hfuel Hfw).
+      unfold post_cond in *. rewrite eqb_negb_shift. exact H.
+    + (* value *)
+      assert (Hcase : (exists neg e2, e = IsNone neg e2) \/ (forall neg e2, e <> IsNone neg e2)).
+      { destruct e; try (right; intros; discriminate). left. eexists. eexists. reflexivity. }
+      destruct Hcase as [[neg [e2 ->]]|Hn].
+      * (* not (e2 is None): one inverted IS_OP *)
+        cbn [comp elen eval simple] in *. rewrite <- app_assoc in Hcode.
+        unfold post_val. apply (val_then_op e2 (IIs (negb neg)) code pre suf next c rho stk fuel _ (IHis neg e2 eq_refl) Hif Hcode Hfuel).
+        intros f0 pc Hat. rewrite (exec_unfold _ rho code pc _ _ Hat). rewrite truthy_of_bool.
+        do 3 f_equal. destruct neg, (val_eqb (eval rho e2) VNone); reflexivity.
+      * assert (Hcomp : comp false (Not e) p next c = comp false e p next c ++ [INot]).
+        { cbn [comp]. destruct e; try reflexivity. exfalso. eapply Hn. reflexivity. }
+        assert (Hlen : elen false (Not e) = S (elen false e)).
+        { cbn [elen]. destruct e; try reflexivity. exfalso. eapply Hn. reflexivity. }
+        rewrite Hcomp, <- app_assoc in Hcode. rewrite Hlen. cbn [eval].
+        unfold post_val. apply (val_then_op e INot code pre suf next c rho stk fuel _ IHe Hif Hcode Hfuel).
+        intros f0 pc Hat. rewrite (exec_unfold _ rho code pc _ _ Hat). reflexivity.
+  - (* And *)
+    split; [|intros; discriminate].
+    assert (HF : Forall sound_at l) by (eapply Forall_impl; [|exact IH]; intros x [H _]; exact H).
+    intros cnd code pre suf next c rho stk fuel Hif Hcode Hfuel Hfw. set (p := pos_of (length pre)) in *.
+    apply simple_And in Hif. destruct Hif as [Hne Hall].
+    rewrite comp_And in Hcode. rewrite eval_And.
+    destruct cnd; rewrite ?elen_And in *.
+    + apply (and_cond_list l HF Hne code pre suf next _ c rho stk fuel (p + elen_list true l) Hall Hcode Hfuel eq_refl eq_refl).
+      intros t Ht. apply Hfw. assumption.
+    + apply (and_val_list l HF Hne code pre suf next c rho stk fuel (p + elen_list false l) Hall Hcode Hfuel eq_refl).
+  - (* Or *)
+    split; [|intros; discriminate].
+    assert (HF : Forall sound_at l) by (eapply Forall_impl; [|exact IH]; intros x [H _]; exact H).
+    intros cnd code pre suf next c rho stk fuel Hif Hcode Hfuel Hfw. set (p := pos_of (length pre)) in *.
+    apply simple_Or in Hif. destruct Hif as [Hne Hall].
+    rewrite comp_Or in Hcode. rewrite eval_Or.
+    destruct cnd; rewrite ?elen_Or in *.
+    + apply (or_cond_list l HF Hne code pre suf next _ c rho stk fuel (p + elen_list true l) Hall Hcode Hfuel eq_refl eq_refl).
+      intros t Ht. apply Hfw. assumption.
+    + apply (or_val_list l HF Hne code pre suf next c rho stk fuel (p + elen_list false l) Hall Hcode Hfuel eq_refl).
+  - (* IfExp: excluded *)
+    split; [|intros; discriminate]. intros cnd code pre suf next c rho stk fuel Hif. discriminate Hif.
+  - (* Cmp *)
+    destruct IHa as [IHa _]. destruct IHb as [IHb _]. split; [|intros; discriminate].
+    intros cnd code pre suf next c rho stk fuel Hif Hcode Hfuel Hfw. set (p := pos_of (length pre)) in *.
+    cbn [simple] in Hif. apply andb_true_iff in Hif. destruct Hif as [Hsa Hsb].
+    cbn [comp] in Hcode. rewrite <- !app_assoc in Hcode.
+    (* a, then b, then COMPARE_OP *)
+    destruct (use_val a code pre _ next c rho stk fuel IHa Hsa Hcode Hfuel) as [f1 Hs1]. fold p in Hs1.
+    set (pa := p + elen false a) in *.
+    assert (Hcb : code = (pre ++ comp false a p next c) ++ comp false b pa next c ++ [ICmp ne] ++ (if cnd then [jump_to c next] else []) ++ suf).
+    { rewrite Hcode, <- !app_assoc. reflexivity. }
+    assert (Hpa : pos_of (length (pre ++ comp false a p next c)) = pa) by (rewrite pos_of_app, length_comp; reflexivity).
+    rewrite <- Hpa in Hcb.
+    assert (Hf1 : length code + 3 <= f1 + pos_of (length (pre ++ comp false a p next c))) by (rewrite Hpa; destruct Hs1 as [H _]; exact H).
+    assert (Hvb := val_then_op b (ICmp ne) code (pre ++ comp false a p next c) ((if cnd then [jump_to c next] else []) ++ suf) next c rho
+                     (eval rho a :: stk) f1 (of_bool (xorb ne (val_eqb (eval rho a) (eval rho b))) :: stk) IHb Hsb Hcb Hf1).
+    rewrite Hpa in Hvb.
+    destruct Hvb as [f2 Hs2].
+    { intros f0 pc Hat. rewrite (exec_unfold _ rho code pc _ _ Hat). reflexivity. }
+    set (pc := pa + S (elen false b)) in *.
+    assert (Hsteps : steps code rho (fuel, p, stk) (f2, pc, of_bool (xorb ne (val_eqb (eval rho a) (eval rho b))) :: stk))
+      by (eapply steps_trans; eassumption).
+    destruct cnd; cbn [elen eval].
+    + (* then the conditional jump *)
+      eapply post_cond_pre; [exact Hsteps|].
+      assert (Hcj : code = (pre ++ comp false a p next c ++ comp false b pa next c ++ [ICmp ne]) ++ [jump_to c next] ++ suf).
+      { rewrite Hcode, <- !app_assoc. reflexivity. }
+      assert (Hpj : pos_of (length (pre ++ comp false a p next c ++ comp false b pa next c ++ [ICmp ne])) = pc).
+      { rewrite pos_of_app, !app_length, !length_comp. cbn [length]. unfold pc, pa. lia. }
+      assert (Hat : instr_at code (pc + 0) (jump_to c next)) by (rewrite Hcj, <- Hpj; apply instr_at_mid; reflexivity).
+      rewrite Nat.add_0_r in Hat.
+      replace (p + (elen false a + elen false b + 2)) with (S pc) by (unfold pc, pa; lia).
+      apply step_jump; [assumption | destruct Hs2 as [H _]; exact H |].
+      intros t Ht. apply Hfw in Ht. cbn [elen] in Ht. unfold pc, pa. lia.
+    + replace (p + (elen false a + elen false b + 1)) with pc by (unfold pc, pa; lia). exists f2. exact Hsteps.
+  - (* IsNone *)
+    destruct IH as [IHe _]. split; [|intros neg0 e2 Heq; injection Heq as _ <-; exact IHe].
+    intros cnd code pre suf next c rho stk fuel Hif Hcode Hfuel Hfw. set (p := pos_of (length pre)) in *.
+    cbn [simple] in Hif. cbn [comp] in Hcode. destruct cnd; cbn [elen eval].
+    + (* POP_JUMP_IF_(NOT_)NONE *)
+      rewrite <- app_assoc in Hcode.
+      destruct (use_val e code pre _ next c rho stk fuel IHe Hif Hcode Hfuel) as [f1 Hs1]. fold p in Hs1.
+      set (p1 := p + elen false e) in *.
+      eapply post_cond_pre; [exact Hs1|].
+      assert (Hc2 : code = (pre ++ comp false e p next c) ++ [jump_none_to (xorb c neg) next] ++ suf) by (rewrite Hcode, <- !app_assoc; reflexivity).
+      assert (Hp1 : pos_of (length (pre ++ comp false e p next c)) = p1) by (rewrite pos_of_app, length_comp; reflexivity).
+      assert (Hat : instr_at code (p1 + 0) (jump_none_to (xorb c neg) next)) by (rewrite Hc2, <- Hp1; apply instr_at_mid; reflexivity).
+      rewrite Nat.add_0_r in Hat.
+      replace (p + (elen false e + 1)) with (S p1) by (unfold p1; lia).
+      rewrite truthy_of_bool.
+      assert (H := step_jump_none code rho p1 (xorb c neg) next (eval rho e) stk f1 Hat ltac:(destruct Hs1 as [H _]; exact H)).
+      unfold post_cond in *. rewrite eqb_xorb_shift. apply H.
+      intros t Ht. apply Hfw in Ht. cbn [elen] in Ht. unfold p1. lia.
+    + rewrite <- app_assoc in Hcode. replace (p + (elen false e + 1)) with (p + S (elen false e)) by lia.
+      unfold post_val. apply (val_then_op e (IIs neg) code pre suf next c rho stk fuel _ IHe Hif Hcode Hfuel).
+      intros f0 pc Hat. rewrite (exec_unfold _ rho code pc _ _ Hat). reflexivity.
+Qed.
+
+(* ------------------------------------------------------------------ no JUMP_FORWARD without conditional expressions *)
+Ltac nofwd_list next :=
+  let t := fresh "t" in let Hin := fresh "Hin" in
+  intros t Hin; cbn [In] in Hin;
+  repeat (destruct Hin as [Hin|Hin]; [try discriminate Hin; try (destruct next; discriminate Hin)|]); try destruct Hin.
+
+Lemma no_fwd_comp : forall e cnd p next c, simple e = true -> no_fwd (comp cnd e p next c).
+Proof.
+  induction e as [n|v|e IH|l IH|l IH|t a b IHt IHa IHb|ne a b IHa IHb|neg e IH] using bexp_ind2; intros cnd p next c Hs.
+  - destruct cnd; cbn [comp]; nofwd_list next.
+  - destruct cnd; cbn [comp]; nofwd_list next.
+  - cbn [simple] in Hs. cbn [comp]. destruct cnd; [apply IH; assumption|].
+    destruct e; try (apply no_fwd_app; [apply IH; assumption | nofwd_list next]).
+    cbn [simple] in Hs. specialize (IH false p next c Hs). cbn [comp] in IH.
+    intros t Hin. apply in_app_or in Hin. destruct Hin as [Hin|[Hin|[]]]; [|discriminate Hin].
+    apply (IH t). apply in_or_app. left. assumption.
+  - apply simple_And in Hs. destruct Hs as [_ Hall]. rewrite comp_And.
+    set (n2 := if cnd then _ else _). clearbody n2. revert p.
+    induction l as [|x r IHl]; intro p; [intros t []|].
+    inversion IH as [|? ? Px Pr]; subst. cbn [forallb] in Hall. apply andb_true_iff in Hall. destruct Hall as [Hx Hr].
+    destruct r as [|y s]; [cbn [comp_and]; apply Px; assumption|].
+    destruct cnd.
+    + rewrite comp_and_cons2. apply no_fwd_app; [apply Px; assumption | apply IHl; assumption].
+    + rewrite comp_and_cons2f. apply no_fwd_app; [apply Px; assumption|]. apply no_fwd_app; [|apply IHl; assumption].
+      nofwd_list n2.
+  - apply simple_Or in Hs. destruct Hs as [_ Hall]. rewrite comp_Or.
+    set (n2 := if cnd then _ else _). clearbody n2. revert p.
+    induction l as [|x r IHl]; intro p; [intros t []|].
+    inversion IH as [|? ? Px Pr]; subst. cbn [forallb] in Hall. apply andb_true_iff in Hall. destruct Hall as [Hx Hr].
+    destruct r as [|y s]; [cbn [comp_or]; apply Px; assumption|].
+    destruct cnd.
+    + rewrite comp_or_cons2. apply no_fwd_app; [apply Px; assumption | apply IHl; assumption].
+    + rewrite comp_or_cons2f. apply no_fwd_app; [apply Px; assumption|]. apply no_fwd_app; [|apply IHl; assumption].
+      nofwd_list n2.
+  - discriminate Hs.
+  - cbn [simple] in Hs. apply andb_true_iff in Hs. destruct Hs as [Ha Hb]. cbn [comp].
+    apply no_fwd_app; [apply IHa; assumption|]. apply no_fwd_app; [apply IHb; assumption|].
+    apply no_fwd_app; [nofwd_list next|]. destruct cnd; nofwd_list next.
+  - cbn [simple] in Hs. cbn [comp]. apply no_fwd_app; [apply IH; assumption|].
+    destruct cnd; nofwd_list next.
+Qed.
+
+(* ------------------------------------------------------------------ the theorem *)
+Lemma exec_load_elt : forall code rho f pc stk, instr_at code pc ILoadElt -> length code + 3 <= f + pc -> exec f rho code pc stk = OYield None.
+Proof. intros code rho f pc stk Hat Hf. destruct (fuel_pos _ _ _ _ Hat Hf) as [f0 ->]. rewrite (exec_unfold f0 rho code pc stk _ Hat). reflexivity. Qed.
+Lemma exec_yield : forall code rho f pc x stk, instr_at code pc IYield -> length code + 3 <= f + pc -> exec f rho code pc (x :: stk) = OYield (Some x).
+Proof. intros code rho f pc x stk Hat Hf. destruct (fuel_pos _ _ _ _ Hat Hf) as [f0 ->]. rewrite (exec_unfold f0 rho code pc _ _ Hat). reflexivity. Qed.
+Lemma exec_return : forall code rho f pc x stk, instr_at code pc IReturn -> length code + 3 <= f + pc -> exec f rho code pc (x :: stk) = OYield (Some x).
+Proof. intros code rho f pc x stk Hat Hf. destruct (fuel_pos _ _ _ _ Hat Hf) as [f0 ->]. rewrite (exec_unfold f0 rho code pc _ _ Hat). reflexivity. Qed.
+Lemma exec_push_comp : forall code rho f pc stk, instr_at code pc IPushComp -> length code + 3 <= f + pc ->
+  exists f0, f = S f0 /\ exec f rho code pc stk = exec f0 rho code (S pc) stk.
+Proof. intros code rho f pc stk Hat Hf. destruct (fuel_pos _ _ _ _ Hat Hf) as [f0 ->]. exists f0. split; [reflexivity|]. rewrite (exec_unfold f0 rho code pc stk _ Hat). reflexivity. Qed.
+
+(* code = pre ++ seg ++ suf: the instruction k places after seg *)
+Lemma instr_at_after : forall pre seg suf k ins,
+  nth_error suf k = Some ins -> instr_at (pre ++ seg ++ suf) (pos_of (length pre) + length seg + k) ins.
+Proof.
+  intros pre seg suf k ins H. rewrite app_assoc. rewrite <- (app_nil_r suf).
+  replace (pos_of (length pre) + length seg + k) with (pos_of (length (pre ++ seg)) + k) by (rewrite pos_of_app; reflexivity).
+  apply instr_at_mid. assumption.
+Qed.
+
+(* a condition at the head of `seg ++ suf`, preceded by pre *)
+Lemma cond_code_sound : forall e rho pre suf fuel,
+  simple e = true -> sound_at e ->
+  let code := pre ++ comp true e (pos_of (length pre)) TTop false ++ suf in
+  length code + 3 <= fuel + pos_of (length pre) ->
+  (forall f, length code + 3 <= f + (pos_of (length pre) + elen true e) -> exec f rho code (pos_of (length pre) + elen true e) [] = OYield None) ->
+  exec fuel rho code (pos_of (length pre)) [] = if truthy (eval rho e) then OYield None else OSkip.
+Proof.
+  intros e rho pre suf fuel Hs He code Hfuel Hrest.
+  assert (H := He true code pre suf TTop false rho [] fuel Hs eq_refl Hfuel ltac:(intros t Ht; discriminate Ht)).
+  unfold post_cond in H. destruct (truthy (eval rho e)); cbn [Bool.eqb] in H; [|exact H].
+  destruct H as [f' [Hf E]]. rewrite E. apply Hrest. exact Hf.
+Qed.
+
+Lemma val_code_sound : forall e rho pre suf fuel,
+  simple e = true -> sound_at e ->
+  let code := pre ++ comp false e (pos_of (length pre)) TTop false ++ suf in
+  length code + 3 <= fuel + pos_of (length pre) ->
+  (forall f, length code + 3 <= f + (pos_of (length pre) + elen false e) ->
+             exec f rho code (pos_of (length pre) + elen false e) [eval rho e] = OYield (Some (eval rho e))) ->
+  exec fuel rho code (pos_of (length pre)) [] = OYield (Some (eval rho e)).
+Proof.
+  intros e rho pre suf fuel Hs He code Hfuel Hrest.
+  destruct (use_val e code pre suf TTop false rho [] fuel He Hs eq_refl Hfuel) as [f' [Hf E]].
+  rewrite E. apply Hrest. exact Hf.
+Qed.
+
+Theorem compile_sound_simple : forall ps e rho, simple e = true -> run_code rho (compile ps e) = meaning ps rho e.
+Proof.
+  intros ps e rho Hs. destruct (sound_all e) as [He _]. unfold run_code.
+  destruct ps; unfold compile, meaning.
+  - (* filter *)
+    rewrite thread_no_fwd by (apply no_fwd_app; [apply no_fwd_comp; assumption | nofwd_list TTop]).
+    change (comp true e (pos_of 0) TTop false ++ [ILoadElt; IYield]) with ([] ++ comp true e (pos_of (length (@nil instr))) TTop false ++ [ILoadElt; IYield]).
+    change 2 with (pos_of (length (@nil instr))) at 1.
+    apply cond_code_sound; [assumption | assumption | cbn [length app]; unfold pos_of; lia |].
+    intros f Hf. rewrite <- (length_comp e true (pos_of (length (@nil instr))) TTop false) in *.
+    rewrite <- (Nat.add_0_r (_ + length _)) in *. apply exec_load_elt; [|assumption].
+    apply instr_at_after. reflexivity.
+  - (* filter of the first of two loops *)
+    rewrite thread_no_fwd by (apply no_fwd_app; [apply no_fwd_comp; assumption | nofwd_list TTop]).
+    change (comp true e (pos_of 0) TTop false ++ [IPushComp; ILoadElt; IYield]) with ([] ++ comp true e (pos_of (length (@nil instr))) TTop false ++ [IPushComp; ILoadElt; IYield]).
+    change 2 with (pos_of (length (@nil instr))) at 1.
+    apply cond_code_sound; [assumption | assumption | cbn [length app]; unfold pos_of; lia |].
+    intros f Hf. rewrite <- (length_comp e true (pos_of (length (@nil instr))) TTop false) in *.
+    set (code := [] ++ comp true e (pos_of (length (@nil instr))) TTop false ++ [IPushComp; ILoadElt; IYield]) in *.
+    set (q := pos_of (length (@nil instr)) + length (comp true e (pos_of (length (@nil instr))) TTop false)) in *.
+    assert (Hat0 : instr_at code (q + 0) IPushComp) by (apply instr_at_after; reflexivity).
+    assert (Hat1 : instr_at code (q + 1) ILoadElt) by (apply instr_at_after; reflexivity).
+    rewrite Nat.add_0_r in Hat0.
+    destruct (exec_push_comp code rho f q [] Hat0 Hf) as [f0 [-> E]]. rewrite E.
+    replace (S q) with (q + 1) by lia. apply exec_load_elt; [assumption | lia].
+  - (* filter of the second loop *)
+    rewrite thread_no_fwd by (intros t [H|H]; [discriminate H|]; revert t H; apply no_fwd_app; [apply no_fwd_comp; assumption | nofwd_list TTop]).
+    set (code := IPushComp :: comp true e (pos_of 1) TTop false ++ [ILoadElt; IYield]).
+    assert (Hat0 : instr_at code 2 IPushComp) by (split; [lia | reflexivity]).
+    destruct (exec_push_comp code rho (S (length code)) 2 [] Hat0 ltac:(lia)) as [f0 [Hf0 E]]. rewrite E.
+    injection Hf0 as <-.
+    change code with ([IPushComp] ++ comp true e (pos_of (length [IPushComp])) TTop false ++ [ILoadElt; IYield]).
+    change 3 with (pos_of (length [IPushComp])).
+    apply cond_code_sound; [assumption | assumption | unfold code; cbn [length app]; unfold pos_of; lia |].
+    intros f Hf. rewrite <- (length_comp e true (pos_of (length [IPushComp])) TTop false) in *.
+    rewrite <- (Nat.add_0_r (_ + length _)) in *. apply exec_load_elt; [|assumption].
+    apply instr_at_after. reflexivity.
+  - (* element *)
+    rewrite thread_no_fwd by (apply no_fwd_app; [apply no_fwd_comp; assumption | nofwd_list TTop]).
+    change (comp false e (pos_of 0) TTop false ++ [IYield]) with ([] ++ comp false e (pos_of (length (@nil instr))) TTop false ++ [IYield]).
+    change 2 with (pos_of (length (@nil instr))) at 1.
+    apply val_code_sound; [assumption | assumption | cbn [length app]; unfold pos_of; lia |].
+    intros f Hf. rewrite <- (length_comp e false (pos_of (length (@nil instr))) TTop false) in *.
+    rewrite <- (Nat.add_0_r (_ + length _)) in *. apply exec_yield; [|assumption].
+    apply instr_at_after. reflexivity.
+  - (* lambda body *)
+    rewrite thread_no_fwd by (apply no_fwd_app; [apply no_fwd_comp; assumption | nofwd_list TTop]).
+    change (comp false e (pos_of 0) TTop false ++ [IReturn]) with ([] ++ comp false e (pos_of (length (@nil instr))) TTop false ++ [IReturn]).
+    change 2 with (pos_of (length (@nil instr))) at 1.
+    apply val_code_sound; [assumption | assumption | cbn [length app]; unfold pos_of; lia |].
+    intros f Hf. rewrite <- (length_comp e false (pos_of (length (@nil instr))) TTop false) in *.
+    rewrite <- (Nat.add_0_r (_ + length _)) in *. apply exec_return; [|assumption].
+    apply instr_at_after. reflexivity.
 Qed.
